@@ -272,6 +272,12 @@ func Calls(kind string, reduced bool) [][]fsx.Op {
 		one(fsx.Op{K: "Remove", P: p})
 		one(fsx.Op{K: "RemoveAll", P: p})
 		r = append(r, []fsx.Op{{K: "Open", P: p, Flag: os.O_WRONLY | os.O_CREATE | os.O_EXCL, Perm: 0o644, H: 0}, {K: "FWrite", H: 0, Data: "E"}, {K: "FClose", H: 0}})
+		// creation does not depend on the access mode: O_RDONLY|O_CREATE|O_EXCL creates as well
+		r = append(r, []fsx.Op{{K: "Open", P: p, Flag: os.O_RDONLY | os.O_CREATE | os.O_EXCL, Perm: 0o644, H: 0}, {K: "FClose", H: 0}})
+		if !reduced {
+			r = append(r, []fsx.Op{{K: "Open", P: p, Flag: os.O_RDONLY | os.O_CREATE, Perm: 0o600, H: 0}, {K: "FClose", H: 0}})
+			r = append(r, []fsx.Op{{K: "Open", P: p, Flag: os.O_RDONLY | os.O_TRUNC, H: 0}, {K: "FClose", H: 0}})
+		}
 		// composites of package os (WriteFile, ReadDir, ReadFile) are not atomic there
 		// either: they are issued as the primitive calls they consist of
 		r = append(r, []fsx.Op{{K: "Open", P: p, Flag: os.O_WRONLY | os.O_CREATE | os.O_TRUNC, Perm: 0o644, H: 0}, {K: "FWrite", H: 0, Data: "W"}, {K: "FClose", H: 0}})
